@@ -467,6 +467,84 @@ def lossless_restore_rule(chk, src):
 
 
 # ------------------------------------------------------------------------------------------ spill of large site tensors to disk
+def periodic_dump_rule(chk, src, rule):
+    """abstract run of TdMpsJob.evolve with recorder stand-ins (evolve_single_step, process_mps, dump_dict, stop criterion) for the four ways of giving the length of a run,
+    information intervals 1, 3 and None, with and without an output path: the periodic result file is written after *every* completed step (after the step's results were
+    processed and the time appended), never for a step that did not happen, and not at all without an output path; which steps also carry the state is a separate choice
+    (information interval)"""
+    from ..syminterp import SymInterp, Sym, Blob, OpenSym, SymRaise
+    TD = "renormalizer/utils/tdmps.py"
+    fi = src.func(TD, "TdMpsJob.evolve")
+    from .chain_rules import class_resolver
+    resolve = class_resolver(src, {"TdMpsJob": TD})
+    for how, args, nwant in (("evolve_dt and nsteps", {"evolve_dt": 0.5, "nsteps": 5}, 5), ("nsteps and evolve_time", {"nsteps": 4, "evolve_time": 2.0}, 4),
+                             ("evolve_dt and evolve_time", {"evolve_dt": 0.5, "evolve_time": 2.0}, 5), ("stop criterion after 3 steps", {"evolve_dt": 0.5}, 3)):
+        for interval in (1, 3, None):
+            for out_path in (True, False):
+                ev = []
+                class Job(Sym):
+                    @property
+                    def latest_evolve_time(self):
+                        return self.evolve_times[-1]
+
+                    def stop_evolve_criteria(self):
+                        return how.startswith("stop") and len(self.evolve_times) - 1 >= 3
+
+                    def evolve_single_step(self, dt):
+                        ev.append(("step", len(self.evolve_times)))
+                        return f"state after step {len(self.evolve_times)}"
+
+                    def process_mps(self, mps):
+                        ev.append(("process", mps, len(self.evolve_times) - 1))
+
+                    def dump_dict(self):
+                        ev.append(("dump", len(self.evolve_times) - 1, self.latest_mps, self._dump_mps))
+                job = Job("job", evolve_times=[0.0], info_interval=interval, dump_mps="all", _dump_mps=None, latest_mps="initial state", _defined_output_path=out_path)
+                job._cls = "TdMpsJob"
+                it = SymInterp(src, resolve, {"logger": Blob("logger"), "datetime": Sym("datetime", now=lambda: 0), "float": float, "int": int, "abs": abs, "str": str})
+                it.max_depth = 8
+                probs = []
+                try:
+                    res = it.call_function(fi, [job], dict(args))
+                except SymRaise as e:
+                    probs.append(f"raises {e}")
+                    res = None
+                steps = [e for e in ev if e[0] == "step"]
+                dumps = [e for e in ev if e[0] == "dump"]
+                if not probs:
+                    if len(steps) != nwant:
+                        probs.append(f"{len(steps)} steps taken; expected {nwant}")
+                    if not out_path:
+                        if dumps:
+                            probs.append(f"{len(dumps)} result files written without an output path")
+                    else:
+                        # after step k: process(k) then dump(k) with the state of step k as latest state, before step k+1
+                        k_ = 0
+                        for e in ev:
+                            if e[0] == "step":
+                                if k_ and ("dump", k_) not in [(d[0], d[1]) for d in dumps]:
+                                    probs.append(f"step {k_ + 1} begins before the result of step {k_} was written")
+                                k_ = e[1]
+                            elif e[0] == "dump":
+                                if e[1] != k_ or e[2] != f"state after step {k_}" or ("process", f"state after step {k_}", k_) not in ev[:ev.index(e)]:
+                                    probs.append(f"result file written with {e[1]} steps recorded and latest state {e[2]!r} while step {k_} is the last completed one (processed: {('process', f'state after step {k_}', k_) in ev})")
+                        if k_ and ("dump", k_) not in [(d[0], d[1]) for d in dumps]:
+                            probs.append(f"the result of the last step ({k_}) is never written")
+                        if len(dumps) != len(steps):
+                            probs.append(f"{len(dumps)} result files for {len(steps)} steps")
+                        # the state travels with the file on information steps only
+                        for d in dumps:
+                            want_mps = "all" if (interval is not None and (d[1] - 1) % interval == 0) else None
+                            if d[3] != want_mps:
+                                probs.append(f"step {d[1]}: state dump setting {d[3]!r}; expected {want_mps!r} (information interval {interval})")
+                                break
+                    if res is not job:
+                        probs.append("evolve does not return the job")
+                chk.ob(rule, f"TdMpsJob.evolve[{how}, information interval {interval}, {'with' if out_path else 'without'} output path]", not probs, fi.where, probs[:3] or f"{len(dumps)} result files for {len(steps)} steps",
+                       "one result file per completed step, written after the step was processed", line=fi.node.lineno,
+                       detail="the periodic result file must hold the current step after every step: otherwise a crash (or a normal end between information steps) leaves a file that is older than the previous step: " + (probs[0] if probs else ""))
+
+
 def spill_rule(chk, src):
     """MatrixProduct keeps site tensors above a size limit as .npy files.  Abstract run of __setitem__ / _array2mt / __getitem__ / __del__ from source (helpers included)
     on two live objects over a model file system (directories and files as a dictionary, os.path / os / shutil / np.save / np.load as operations on it): every (object,
@@ -817,6 +895,8 @@ def run(chk):
     chk.rule("spill-protocol", "disk spill of large site tensors (abstract run on two objects over a model file system): one file per (object, site), round trip of content, dtype and labels, replacement, cleanup of own files only, nothing written below the limit", 5)
     spill_rule(chk, src)
     chk.rule("dump-completes", "normal completion of dump_dict leaves the primary result file complete", 1)
+    chk.rule("periodic-dump", "TdMpsJob.evolve (abstract run with recorders, 24 configurations): the result file is written after every completed and processed step", 24)
+    periodic_dump_rule(chk, src, "periodic-dump")
 
     # ------------------------------------------------------------------ crash points
     fi = src.func(TDMPS, "TdMpsJob.dump_dict")
